@@ -299,19 +299,19 @@ func (x *XPath) Ret(i int) string {
 // Arg renders argument i of a call event under the path's phi choices.
 func (x *XPath) Arg(ev XEvent, i int) string {
 	ci, ok := ev.In.(ssa.CallInstruction)
-	if !ok || i >= len(ci.Common().Args) {
+	if !ok || i >= len(BaselineArgs(ci.Common())) {
 		return ""
 	}
-	return Term(x.Resolve(ci.Common().Args[i]))
+	return Term(x.Resolve(BaselineArgs(ci.Common())[i]))
 }
 
 // ArgValue returns argument i of a call event under the path's phi choices.
 func (x *XPath) ArgValue(ev XEvent, i int) ssa.Value {
 	ci, ok := ev.In.(ssa.CallInstruction)
-	if !ok || i >= len(ci.Common().Args) {
+	if !ok || i >= len(BaselineArgs(ci.Common())) {
 		return nil
 	}
-	return x.Resolve(ci.Common().Args[i])
+	return x.Resolve(BaselineArgs(ci.Common())[i])
 }
 
 // Holds reports whether the path took a branch establishing exactly atom a.
@@ -1232,10 +1232,10 @@ func (c *Ctx) XRetFrom(fnName string, sel Sel, i int, desc string, pred func(ssa
 func XCallWith(callee string, idx int, term string) func(ssa.Value) bool {
 	return func(v ssa.Value) bool {
 		call, ok := v.(*ssa.Call)
-		if !ok || !matchCallee(&call.Call, []string{callee}) || idx >= len(call.Call.Args) {
+		if !ok || !matchCallee(&call.Call, []string{callee}) || idx >= len(BaselineArgs(&call.Call)) {
 			return false
 		}
-		return Term(call.Call.Args[idx]) == term
+		return Term(BaselineArgs(&call.Call)[idx]) == term
 	}
 }
 
